@@ -261,7 +261,13 @@ func (c16) Run(x *Exec, scn any) {
 				pst = panicSite(pst)
 			case "log":
 				seq++
-				sb := emit(0, seq, m.tags[op.Arg], op.Arg, EvOp{Kind: 14, Size: 3}, levelByName(op.Level))
+				// through the entry point that belongs to the level (plain and lazy / formatted variants
+				// alternate), every third time through Record
+				kind := 14
+				if ks, ok := map[string][2]int{"TRACE": {5, 9}, "DEBUG": {6, 10}, "INFO": {0, 3}, "WARN": {1, 11}, "ERROR": {2, 4}, "PANIC": {7, 12}, "FATAL": {8, 13}}[op.Level]; ok && seq%3 != 0 {
+					kind = ks[seq%2]
+				}
+				sb := emit(0, seq, m.tags[op.Arg], op.Arg, EvOp{Kind: kind, Size: 3}, levelByName(op.Level))
 				marker = sb.ID
 				pv, pst = sb.Panic, sb.PanicAt
 			case "write":
